@@ -33,7 +33,10 @@ EXPLANATION = (
     "evaluated exactly over all (config, tn) pairs with the checker's own "
     "evaluator (pure decision chain over a finite domain) and its return "
     "guard is compared with the specified predicate on all (entry, config, "
-    "tn) triples. The firmware trigger is brought to expression normal form "
+    "tn) triples; when the lookup keeps state between calls (static cache) "
+    "it is evaluated in every state reachable by any sequence of calls. "
+    "The firmware's channel number -> task mask function is executed for all "
+    "256 channel number octets and compared with a reference. The firmware trigger is brought to expression normal form "
     "((fn + A) mod modulo == frame_nr mod modulo, set queued A - 1 frames "
     "ahead; any other comparison of the frame-number remainder with a value "
     "of the row is decided by evaluating it on every table row over one full "
@@ -56,6 +59,9 @@ ASSUMPTIONS = [
     "quick tier: the period-0 entry (GSM_PCHAN_NONE) is never handed to l1sched_configure_ts (decided by the thorough tier: value sets of all call sites)",
     "incrementally maintained lookup index: branch conditions the analysis cannot evaluate are free (both branches possible), a plain frame-number lvalue takes every residue modulo the period, and the layout a timeslot points to is not replaced between the definition of the index and the lookup",
     "execution of mframe_schedule_set (only used when its trigger is not in one of the recognised normal forms): functions without a visible body neither queue item sets nor modify l1s.current_time, the const tables or the caller's locals; tdma_schedule_set(D, set, ..) starts the set's first burst D frames + the DSP latency after the current frame; l1s.current_time.fn < 2^32 - 2^20",
+    "spec/chan_nr_tasks.json: which firmware task(s) implement the channel an RSL channel number octet denotes; bit i of the mask returned by chan_nr2mf_task_mask() runs task i (mframe_schedule() tests `tasks & (1 << i)`); the function is static and only called directly (checked), functions without a visible body do not change its locals",
+    "l1sched_mframe_layout with state kept between calls: the state variables (static locals, static file-scope variables no other function of the translation unit mentions) are modified by this function only; any sequence of (config, tn) calls is possible",
+    "execution of mframe_schedule_set: l1s.current_time is a consistent struct gsm_time (kept so by l1s_time_inc / gsm_fn2gsmtime): t2 == fn mod 26, t3 == fn mod 51, tc == (fn div 51) mod 8; t1 is not modelled",
     "thorough tier: trxcon source files that clang cannot parse here are covered by an identifier scan of their comment-stripped text only (they must not mention `frames`, l1sched_configure_ts, l1sched_mframe_layout)",
 ]
 
@@ -64,6 +70,7 @@ F_TRX = "src/host/trxcon/src/sched_trx.c"
 F_FW = "src/target/firmware/layer1/mframe_sched.c"
 F_FSM = "src/host/trxcon/src/trxcon_fsm.c"
 F_L1CTL = "src/host/trxcon/src/l1ctl.c"
+F_L23 = "src/target/firmware/layer1/l23_api.c"
 
 SINGLE_BURST = ("L1SCHED_FCCH", "L1SCHED_SCH", "L1SCHED_RACH")
 HALF_BLOCK = ("L1SCHED_TCHH_0", "L1SCHED_TCHH_1")
@@ -344,6 +351,12 @@ def ceval(tu, n, leaf, depth=0):
                 return ceval(tu, args[pidx[x["referencedDecl"]["id"]]], leaf, depth + 1)
             return leaf(x)
         return ceval(tu, ret, inner, depth + 1)
+    if kind(n) == "DeclRefExpr":
+        # a variable the caller models (e.g. a static pointer-to-const with a constant initialiser, which
+        # tu.fold would take for a constant) has the caller's value
+        r = leaf(n)
+        if r is not _NOTHING:
+            return r
     v = tu.fold(n)
     if v is not None:
         return v
@@ -1535,6 +1548,77 @@ class LayoutLookup:
             raise AnalysisError("l1sched_mframe_layout signature changed")
         self.pid = [p["id"] for p in ps]
         self.arr_id = tu.var("layouts")["id"]
+        self._find_state()
+
+    def _find_state(self):
+        """Variables that keep their value from one call of the function to the next (the hidden part of
+        its input): static locals, and file-scope variables the function stores to.  -> self.state =
+        [(declaration id, name)], self.state_init = their values before the first call."""
+        tu, f = self.tu, self.f
+        body = tu.body(f)
+        state = []
+        for n in walk(body):
+            if kind(n) == "VarDecl" and n.get("storageClass") == "static":
+                state.append(n)
+        stored = set()
+        for n in walk(body):
+            k = kind(n)
+            tgt = None
+            if (k == "BinaryOperator" and n.get("opcode") == "=") or k == "CompoundAssignOperator":
+                tgt = kids(n)[0]
+            elif k == "UnaryOperator" and n.get("opcode") in ("++", "--", "&"):
+                tgt = kids(n)[0]
+            if tgt is None:
+                continue
+            t = strip(tgt)
+            i = Locals._ref(t)
+            if i is not None and i not in self.loc.decl:
+                if k == "UnaryOperator" and n.get("opcode") == "&":
+                    raise AnalysisError("l1sched_mframe_layout takes the address of `%s`; outside the evaluator's model" % ctext(t)[:50])
+                stored.add(i)
+            elif i is None and k != "UnaryOperator":
+                raise AnalysisError("l1sched_mframe_layout stores to `%s`; outside the evaluator's model" % ctext(t)[:50])
+        for i in sorted(stored):
+            v = tu.by_id.get(i)
+            if v is None or kind(v) != "VarDecl" or v.get("name") == "layouts":
+                raise AnalysisError("l1sched_mframe_layout modifies `%s`; outside the evaluator's model" % (
+                    v.get("name") if v else "?"))
+            # a file-scope variable is part of the function's own state only if nothing else can write it
+            if v.get("storageClass") != "static":
+                raise AnalysisError("l1sched_mframe_layout keeps state in `%s`, which other translation units can modify; "
+                                    "cannot enumerate its values" % v.get("name"))
+            for oname, of in body_funcs(tu):
+                if of is f:
+                    continue
+                for x in walk(tu.body(of)):
+                    if kind(x) == "DeclRefExpr" and x.get("referencedDecl", {}).get("id") == i:
+                        raise AnalysisError("l1sched_mframe_layout keeps state in `%s`, which %s() also uses; cannot "
+                                            "enumerate its values" % (v.get("name"), oname))
+            state.append(v)
+        self.state = []
+        self.state_init = []
+        for v in state:
+            qt = v.get("type", {}).get("qualType", "")
+            if any(d[0] == "addr" for d in self.loc.defs.get(v["id"], [])):
+                raise AnalysisError("l1sched_mframe_layout: the address of its state variable `%s` is taken; outside the "
+                                    "evaluator's model" % v.get("name"))
+            if "[" in qt or (int_type(tu, v.get("type")) is None and "*" not in qt and not qt.startswith("enum ")):
+                raise AnalysisError("l1sched_mframe_layout keeps state in `%s` of type `%s`; outside the evaluator's model" % (
+                    v.get("name"), qt))
+            init = [c for c in kids(v) if "Comment" not in (kind(c) or "") and not (kind(c) or "").endswith("Attr")]
+            self.state.append((v["id"], v.get("name")))
+            self.state_init.append(ceval(tu, init[0], self.leaf({})) if init else 0)
+        self.state_ids = {i for i, _ in self.state}
+        self.state_init = tuple(self.state_init)
+
+    def show_state(self, st):
+        out = []
+        for (i, name), v in zip(self.state, st):
+            if isinstance(v, tuple) and v[0] == "elem":
+                out.append("%s = &layouts[%d]" % (name, v[1]))
+            else:
+                out.append("%s = %s" % (name, "NULL" if v == 0 else v))
+        return ", ".join(out)
 
     def leaf(self, env):
         T = self.T
@@ -1577,9 +1661,20 @@ class LayoutLookup:
             return _NOTHING
         return lf
 
-    def run(self, cfg, tn):
-        g, tu = self.g, self.tu
+    def run(self, cfg, tn, state=None):
+        """value returned by the call (config, tn) made with the state variables holding `state`
+        (default: their initial values); self.after = their values after the call"""
+        state = self.state_init if state is None else state
         env = {self.pid[0]: cfg, self.pid[1]: tn}
+        for (i, _), v in zip(self.state, state):
+            env[i] = v
+        self.after = state
+        r = self._run(env)
+        self.after = tuple(env[i] for i, _ in self.state)
+        return r
+
+    def _run(self, env):
+        g, tu = self.g, self.tu
         lf = self.leaf(env)
         node = g.entry
         for _ in range(20000):
@@ -1605,7 +1700,9 @@ class LayoutLookup:
                     for vd in kids(a):
                         if kind(vd) != "VarDecl":
                             continue
-                        init = [c for c in kids(vd) if "Comment" not in (kind(c) or "")]
+                        if vd["id"] in self.state_ids:
+                            continue        # static: initialised once, before the first call
+                        init = [c for c in kids(vd) if "Comment" not in (kind(c) or "") and not (kind(c) or "").endswith("Attr")]
                         env[vd["id"]] = ceval(tu, init[0], lf) if init else None
                 elif ak in ("BreakStmt", "ContinueStmt", "DoHead", "NullStmt"):
                     pass
@@ -1613,7 +1710,7 @@ class LayoutLookup:
                     e = strip(a)
                     ek = kind(e)
                     tgt = Locals._ref(kids(e)[0]) if kids(e) else None
-                    if ek == "BinaryOperator" and e.get("opcode") == "=" and tgt in self.loc.decl:
+                    if ek == "BinaryOperator" and e.get("opcode") == "=" and (tgt in self.loc.decl or tgt in self.state_ids):
                         env[tgt] = ceval(tu, kids(e)[1], lf)
                     elif ek == "UnaryOperator" and e.get("opcode") in ("++", "--") and tgt in env and env[tgt] is not None:
                         d = 1 if e.get("opcode") == "++" else -1
@@ -1635,6 +1732,14 @@ class LayoutLookup:
 
 
 def r2_lookup(L, T):
+    """C11.R2, clause `every (channel combination, timeslot) lookup returns a layout valid for that
+    timeslot`: l1sched_mframe_layout is evaluated exactly (checker's own evaluator) for every
+    combination present in layouts[] and every tn 0..7 -- and, when the function keeps state between
+    calls (static locals, file-scope variables only it writes), in every state that any sequence of
+    calls over the whole (enum gsm_phys_chan_config x tn) domain can leave behind (the state space is
+    finite: closure from the initial values).  The entry returned must have the requested chan_config,
+    the tn bit in its slotmask and period > 0; a failing lookup is reported with the shortest sequence
+    of preceding calls that produces the state."""
     fname = "l1sched_mframe_layout"
     L.fn(F_MF, fname)
     LL = LayoutLookup(T)
@@ -1644,10 +1749,45 @@ def r2_lookup(L, T):
     for lay in T.layouts:
         if lay["cfg"] != none and lay["cfg"] not in cfgs:
             cfgs.append(lay["cfg"])
+
+    def cname(c):
+        return short_cfg(T.cfg_name(c))
+
+    # reachable values of the hidden state: closure of the initial state under every call of the domain
+    reach = {LL.state_init: None}          # state -> (previous state, (cfg, tn)) on a shortest call sequence
+    order = [LL.state_init]
+    results = {}                           # (state, cfg, tn) -> value | EvalOOB
+    if LL.state:
+        dom = sorted(set(T.cfg.values()) | set(T.extra_cfg.values()) | set(cfgs))
+        qi = 0
+        while qi < len(order):
+            st = order[qi]
+            qi += 1
+            for cfg in dom:
+                for tn in range(8):
+                    try:
+                        results[(st, cfg, tn)] = LL.run(cfg, tn, st)
+                    except EvalOOB as e:
+                        results[(st, cfg, tn)] = e
+                        continue
+                    if LL.after not in reach:
+                        reach[LL.after] = (st, (cfg, tn))
+                        order.append(LL.after)
+                        if len(order) > 4 * (len(T.layouts) + 2) ** len(LL.state) or len(order) > 4000:
+                            raise AnalysisError("%s(): the values of its state variables (%s) do not close over the call domain" % (
+                                fname, ", ".join(n for _, n in LL.state)))
+
+    def history(st):
+        calls = []
+        while reach.get(st) is not None:
+            st, c = reach[st]
+            calls.append(c)
+        return list(reversed(calls))
+
     result = {}
     npairs = 0
     for cfg in cfgs:
-        cn = short_cfg(T.cfg_name(cfg))
+        cn = cname(cfg)
         ents = [l for l in T.layouts if l["cfg"] == cfg]
         union = 0
         overlap = []
@@ -1661,29 +1801,62 @@ def r2_lookup(L, T):
              [], overlap, not overlap, ents[0]["line"])
         for tn in range(8):
             npairs += 1
-            try:
-                r = LL.run(cfg, tn)
-            except EvalOOB as e:
-                L.ob("C11.R2", F_MF, fname, "lookup (%s, tn %d) stays inside layouts[]" % (cn, tn), "in range", str(e), False)
-                continue
-            if isinstance(r, tuple) and r[0] == "elem" and 0 <= r[1] < len(T.layouts):
-                lay = T.layouts[r[1]]
-                found = {"chan_config": short_cfg(T.cfg_name(lay["cfg"])), "tn_in_slotmask": bool(lay["slotmask"] >> tn & 1),
-                         "period>0": lay["period"] > 0}
-                ok = lay["cfg"] == cfg and bool(lay["slotmask"] >> tn & 1) and lay["period"] > 0
-                if ok:
-                    result[(cfg, tn)] = lay
-            else:
-                found, ok = "NULL" if r == 0 else repr(r), False
-            L.ob("C11.R2", F_MF, fname, "lookup (%s, tn %d) returns a layout of that combination valid for the timeslot" % (cn, tn),
-                 {"chan_config": cn, "tn_in_slotmask": True, "period>0": True}, found, ok, tu.line(LL.f))
+            want = {"chan_config": cn, "tn_in_slotmask": True, "period>0": True}
+            found, ok, got = want, True, set()
+            for st in order:
+                k = (st, cfg, tn)
+                if k not in results:
+                    try:
+                        results[k] = LL.run(cfg, tn, st)
+                    except EvalOOB as e:
+                        results[k] = e
+                r = results[k]
+                if isinstance(r, EvalOOB):
+                    f1, ok1 = "reads %s, outside the table" % r, False
+                elif isinstance(r, tuple) and r[0] == "elem" and 0 <= r[1] < len(T.layouts):
+                    lay = T.layouts[r[1]]
+                    f1 = {"chan_config": cname(lay["cfg"]), "tn_in_slotmask": bool(lay["slotmask"] >> tn & 1),
+                          "period>0": lay["period"] > 0}
+                    ok1 = lay["cfg"] == cfg and bool(lay["slotmask"] >> tn & 1) and lay["period"] > 0
+                    if ok1:
+                        got.add(r[1])
+                    else:
+                        f1["returned"] = "layouts[%d] (%s)" % (r[1], T.label(lay))
+                else:
+                    f1, ok1 = {"returned": "NULL" if r == 0 else repr(r)}, False
+                if not ok1 and ok:
+                    ok, found = False, f1
+                    h = history(st)
+                    if h and isinstance(found, dict):
+                        found["after_the_lookups"] = " then ".join("(%s, tn %d)" % (cname(c), t) for c, t in h[-3:])
+                        found["state"] = LL.show_state(st)
+                    elif h:
+                        found = "%s after the lookups %s" % (found, " then ".join("(%s, tn %d)" % (cname(c), t) for c, t in h[-3:]))
+            if ok and len(got) == 1:
+                result[(cfg, tn)] = T.layouts[got.pop()]
+            L.ob("C11.R2", F_MF, fname, "lookup (%s, tn %d) returns a layout of that combination valid for the timeslot%s" % (
+                cn, tn, ", whatever lookups preceded it" if LL.state else ""), want, found, ok, tu.line(LL.f),
+                note="evaluated in the %d reachable states of %s" % (len(order), ", ".join(n for _, n in LL.state)) if LL.state else None)
     L.floor("C11.R2", "(combination, timeslot) pairs", npairs, 64)
-    # guard of the non-NULL return, compared with the specified predicate
+    if LL.state:
+        L.extra["layout_lookup_states"] = len(order)
     rets = [n for n in LL.g.nodes if n.kind == "stmt" and kind(n.ast) == "ReturnStmt" and kids(n.ast)
             and tu.fold(kids(n.ast)[0]) is None]
-    if len(rets) != 1:
-        raise AnalysisError("%s(): expected exactly one return of a table entry, found %d" % (fname, len(rets)))
-    rn = rets[0]
+    if not rets:
+        raise AnalysisError("%s(): no return of a table entry" % fname)
+    if len(rets) == 1 and not LL.state:
+        r2_return_guard(L, T, LL, cfgs, rets[0])
+    # otherwise (several returns of an entry, state kept between calls) the exhaustive evaluation above,
+    # which does not depend on how the function is written, is the whole decision
+    return result, LL
+
+
+def r2_return_guard(L, T, LL, cfgs, rn):
+    """guard of the single non-NULL return of a stateless scan loop, compared with the specified predicate
+    on all (entry, config, tn) triples"""
+    fname = "l1sched_mframe_layout"
+    tu = T.tu
+    none = T.cfg[NONE_CFG]
     loop = LL.g.loop_of(rn)
     if loop is None or kind(loop) != "ForStmt":
         raise AnalysisError("%s(): the entry is not returned from a for loop; unclassifiable" % fname)
@@ -1709,7 +1882,6 @@ def r2_lookup(L, T):
          "guard of `return &layouts[i]`: entry i is returned only if chan_config == config and the tn bit of slotmask is set (first such entry, scan from 0)",
          {"equivalent_on_triples": ntr, "scan_start": 0}, {"equivalent_on_triples": ntr, "scan_start": start} if bad is None else
          {"counterexample": bad, "guard": lits}, bad is None and start == 0, tu.line(rn.ast))
-    return result, LL
 
 
 # ======================================================== firmware tables
@@ -2176,6 +2348,14 @@ class _Probe:
 XUNK = (None, 0)
 FN_SUFFIX = "current_time.fn"
 SET_CALL = "tdma_schedule_set"
+# struct gsm_time of libosmocore (gsm_fn2gsmtime / l1s_time_inc keep it consistent): T2 = FN mod 26,
+# T3 = FN mod 51, TC = (FN div 51) mod 8 -- (member path suffix, period in FN, value as a function of FN).
+# T1 = FN div 1326 has the period of the whole hyperframe and stays outside the model.
+GSM_TIME_FIELDS = (
+    ("current_time.t2", 26, lambda fn: fn % 26),
+    ("current_time.t3", 51, lambda fn: fn % 51),
+    ("current_time.tc", 8 * 51, lambda fn: (fn // 51) % 8),
+)
 
 
 def _dep_join(a, b):
@@ -2218,6 +2398,7 @@ class FwExec:
         self._simple = {}
         self._havoc = {}
         self.tables = {}        # name -> rows (incl. terminator / filler rows)
+        self.time_fields = set()  # fields of l1s.current_time besides fn that were read
 
     # ---- static facts
     def cfg(self, name):
@@ -2311,6 +2492,11 @@ class FwExec:
         if isinstance(v, tuple) and v[0] == "mem":
             if v[1].endswith(FN_SUFFIX):
                 return (self.fn, ("L", 0))
+            for suf, per, fun in GSM_TIME_FIELDS:
+                # the other fields of the same struct gsm_time: periodic functions of its fn (ASSUMPTIONS)
+                if v[1].endswith(suf):
+                    self.time_fields.add(suf.rsplit(".", 1)[1])
+                    return (self.wrap(n, fun(self.fn)), per)
             ty = n.get("type", {})
             if any(re.sub(r"\b(const|volatile)\b", "", ty.get(q, "")).strip().startswith(("struct ", "union "))
                    for q in ("qualType", "desugaredQualType")):
@@ -2852,7 +3038,9 @@ def r3_trigger_exec(L, FW, latency, why):
          "at fn with frame offset D starts its first burst in fn + D + <DSP latency>; per task and item set these frames are "
          "exactly the frames == frame_nr (mod modulo) of the task's rows with that set, each once",
          ref, "; ".join(bad) if bad else ref, not bad, tu.line(tu.func(fname)),
-         note="shape analysis: %s" % why[:200] if why else None)
+         note=("shape analysis: %s" % why[:200] if why else "") + (
+             "; l1s.current_time.{%s} read as periodic functions of l1s.current_time.fn (T2 = FN mod 26, T3 = FN mod 51, "
+             "TC = (FN div 51) mod 8)" % ",".join(sorted(X_.time_fields)) if X_.time_fields else "") or None)
     L.ob("C11.R3", F_FW, fname, "frame offset D of tdma_schedule_set is never negative", [], sorted(negD), not negD,
          tu.line(tu.func(fname)))
     return nexec
@@ -2884,6 +3072,129 @@ def r3_trigger(L, FW, latency):
         r3_trigger_exec(L, FW, latency, why)
     except AnalysisError as e2:
         raise AnalysisError("%s [the shape analysis of mframe_schedule_set ended with: %s]" % (e2, why[:300]))
+
+
+# =============================== R5: channel number -> firmware task selection
+
+class _TUOnly:
+    """what FwExec needs of a translation unit without multiframe tables"""
+
+    def __init__(self, tu):
+        self.tu = tu
+        self.tasks = {}
+        self.map_dim = 0
+        self.task_table = []
+
+    def table(self, name):
+        raise AnalysisError("%s: table %s is read; outside the execution model" % (self.tu.rel, name))
+
+
+def chan_nr_reference(C, cbits, tn):
+    """reference task list of (cbits, tn) in spec/chan_nr_tasks.json, None if the reference leaves the
+    channel number open"""
+    hit = None
+    for e in C.get("entries", []):
+        tns = list(range(8)) if e.get("tn", "all") == "all" else e["tn"]
+        if cbits in e["cbits"] and tn in tns:
+            if hit is not None:
+                raise AnalysisError("spec/chan_nr_tasks.json: two entries for cbits 0x%02x tn %d" % (cbits, tn))
+            hit = e
+    return hit
+
+
+def r5_chan_nr_tasks(L, FW, M, C):
+    """C11.R5, first clause (`the frames in which the firmware starts a block of a logical channel are
+    the frames trxcon's layout gives to that channel`), link channel -> task: the firmware runs, for a
+    dedicated channel requested by its RSL channel number, the multiframe tasks whose bits
+    chan_nr2mf_task_mask() sets; R3/R4 compare the frames of task X with the trxcon channel X is mapped
+    to, so the property only holds if the mask selects, for every channel number, exactly the mapped
+    task(s) of that channel.  The function is executed by the checker's own interpreter (C integer
+    conversions applied, enumerators resolved by clang for this translation unit) for all 256 channel
+    number octets x every neighbour mode a call site passes; restricted to the tasks that
+    spec/mframe_map.json maps to a trxcon logical channel, the selected set must equal the reference
+    spec/chan_nr_tasks.json (channel numbers the reference leaves open are not constrained)."""
+    fname = C.get("function", "chan_nr2mf_task_mask")
+    tu = TU(L.repo, "fw", "layer1/l23_api.c", L=L)
+    f = tu.func(fname)
+    L.fn(F_L23, fname)
+    ps = tu.fparams(f)
+    if len(ps) != 2:
+        raise AnalysisError("%s() signature changed (%d parameters)" % (fname, len(ps)))
+    tasks = {k: v for k, v in tu.enums.items() if tu.enum_of.get(k) == "mframe_task"}
+    if tasks != FW.tasks:
+        raise AnalysisError("enum mframe_task differs between layer1/l23_api.c and layer1/mframe_sched.c")
+    byval = {}
+    for k, v in tasks.items():
+        if not k.startswith("_"):
+            byval.setdefault(v, []).append(k)
+    mapped = {k for k in M.get("tasks", {}) if not k.startswith("_")}
+    for e in C.get("entries", []):
+        for t in e["tasks"]:
+            if t not in tasks:
+                raise AnalysisError("spec/chan_nr_tasks.json names %s, which is not an enumerator of enum mframe_task any more" % t)
+            if t not in mapped:
+                raise AnalysisError("spec/chan_nr_tasks.json names %s, which spec/mframe_map.json does not map to a trxcon channel" % t)
+    # neighbour modes: the second argument of every call (the function is only ever called directly)
+    modes = set()
+    ncalls = 0
+    callee_ids = set()
+    roots = [(oname, tu.body(of)) for oname, of in body_funcs(tu)] + \
+            [(vn, v) for vn, v in sorted(tu.vars.items()) if in_main_file(tu, v)]
+    for oname, root in roots:
+        for c in calls_to(root, fname):
+            ncalls += 1
+            callee_ids.add(id(strip(kids(c)[0])))
+            a = call_args(c)
+            v = tu.fold(a[1]) if len(a) == 2 else None
+            if v is None:
+                raise AnalysisError("%s(): %s is called with a neighbour mode that is not a constant" % (oname, fname))
+            modes.add(v)
+    for oname, root in roots:
+        for n in walk(root):
+            if kind(n) == "DeclRefExpr" and n.get("referencedDecl", {}).get("name") == fname and id(n) not in callee_ids:
+                raise AnalysisError("%s: %s is used other than by a direct call; cannot enumerate its arguments" % (oname, fname))
+    if f.get("storageClass") != "static":
+        raise AnalysisError("%s() is not static any more: callers in other translation units are not enumerated" % fname)
+    L.floor("C11.R5", "call sites of %s" % fname, ncalls, 1)
+    X_ = FwExec(_TUOnly(tu), fname)
+    nchk = nopen = 0
+    table = {}
+    for mode in sorted(modes):
+        for chan_nr in range(256):
+            X_.steps = 0
+            X_.calls = []
+            r = X_.run(fname, [(chan_nr, 0), (mode, 0)])
+            if X_.calls:
+                raise AnalysisError("%s() queues item sets; outside the model" % fname)
+            if not isinstance(r[0], int) or r[1] != 0:
+                raise AnalysisError("%s(0x%02x, %d): the returned mask is not a value the model can compute" % (fname, chan_nr, mode))
+            mask = r[0]
+            if mask < 0 or mask >> 32:
+                raise AnalysisError("%s(0x%02x, %d) returns %d; not a 32 bit mask" % (fname, chan_nr, mode, mask))
+            sel = []
+            for bit in range(32):
+                if mask >> bit & 1:
+                    names = byval.get(bit)
+                    if not names or len(names) != 1:
+                        sel.append("bit %d (%s)" % (bit, "no task" if not names else "/".join(names)))
+                    else:
+                        sel.append(names[0])
+            cbits, tn = chan_nr >> 3, chan_nr & 7
+            table[(mode, cbits, tn)] = sel
+            ref = chan_nr_reference(C, cbits, tn)
+            if ref is None:
+                nopen += 1
+                continue
+            nchk += 1
+            got = sorted(t for t in sel if t in mapped or t not in tasks)
+            want = sorted(ref["tasks"])
+            L.ob("C11.R5", F_L23, fname,
+                 "channel number cbits 0x%02x tn %d (%s), neighbour mode %d: the selected tasks that have a trxcon counterpart are the tasks of that channel" % (
+                     cbits, tn, ref.get("channel", "?"), mode),
+                 want, got, got == want, tu.line(f))
+    L.floor("C11.R5", "(channel number, neighbour mode) pairs compared with the reference", nchk, 152)
+    L.extra["chan_nr_tasks"] = {"compared": nchk, "left_open_by_the_reference": nopen, "neighbour_modes": sorted(modes)}
+    return table
 
 
 # ====================================================== R4: cross-agreement
@@ -3359,6 +3670,10 @@ def s_cross(L, T, FW, r2, M, S):
     r4_spec(L, T, lookup, M, S, complete)
 
 
+def s_chan_nr(L, FW, M):
+    r5_chan_nr_tasks(L, FW, M, load_spec("chan_nr_tasks.json"))
+
+
 def s_thorough_tus(L, T, tu_trx):
     tus = {F_TRX: tu_trx, F_MF: T.tu}
     tus[F_FSM] = TU(L.repo, "trxcon", "src/trxcon_fsm.c", L=L)
@@ -3396,6 +3711,7 @@ def run(L, tier):
     L.stage(r3_fw_tables, L, FW)
     L.stage(r3_trigger, L, FW, latency)
     L.stage(s_cross, L, T, FW, r2, M, S)
+    L.stage(s_chan_nr, L, FW, M)
     if T and FW:
         L.extra["tables"] = {
             "trxcon_layouts": len(T.layouts),
